@@ -1282,6 +1282,16 @@ Ltac sig3 Hok HF :=
   apply arg_ok_basic in H3; [subst|discriminate|discriminate];
   let HF' := fresh "HF" in rename HF into HF'; fa2 HF'.
 
+(* hslFunc either rejects its arguments or returns a string *)
+Lemma hsl_model_shape o nums :
+  (exists k, Builtins.hsl_model o nums = Builtins.OPanic k) \/
+  (exists t, Builtins.hsl_model o nums = Builtins.ORet (Builtins.VStr t)).
+Proof.
+  unfold Builtins.hsl_model, Builtins.hsl_with.
+  destruct nums as [|h [|a [|b [|c [|d r]]]]];
+    repeat match goal with |- context [if ?c then _ else _] => destruct c end; eauto.
+Qed.
+
 (* results of the pure string and math built-ins that are in the fragment *)
 Lemma pure_builtin_sound P S G e s name vals m sg ts :
   pure_builtin name vals = Some m -> mem_str name s1_builtins = true -> builtin_sig name = Some sg ->
@@ -1304,6 +1314,17 @@ Proof.
   - (* trim *) sig2 Hok HF. load_s. load_s. apply bpost_of_alloc_str; auto.
   - (* replace *) sig3 Hok HF. load_s. load_s. load_s. apply bpost_of_alloc_str; auto.
   - (* index *) sig2 Hok HF. load_s. load_s. apply bpost_of_alloc_num; auto.
+  - (* split: one string cell per part, then the array of them *)
+    sig2 Hok HF. load_s. load_s.
+    wbind ltac:(eapply (mapM_wp (fun p => alloc (HStr p)) (fun _ _ => True)
+                          (fun S' (_ : str) l => sfind S' l = Some TStr) (st_globals s));
+                [auto | intros; eauto | | exact Hh | reflexivity | apply Forall_forall; auto]).
+    { intros S0 s0 p Hh0 Hg0 _.
+      eapply wp_mono; [eapply (alloc_wp S0 s0 (HStr p) TStr); [exact Hh0 | apply CStr | apply ok1_TStr]|]. cbv beta.
+      intros l s' (S' & E & Hh' & Hl & Hg'). hdone S'. }
+    intros ls s1 (S1 & E1 & Hh1 & Hg1 & HR).
+    eapply ret_alloc_bpost; [exact E1 | eapply inv_step; eauto | | ok1t].
+    constructor. clear -HR. induction HR; constructor; auto.
   - (* floor *) sig1 Hok HF. load_n. apply bpost_of_alloc_num; auto.
   - (* ceil *) sig1 Hok HF. load_n. apply bpost_of_alloc_num; auto.
   - (* round *) sig1 Hok HF. load_n. apply bpost_of_alloc_num; auto.
@@ -1316,6 +1337,17 @@ Proof.
   - (* rand1 *)
     unfold sig_args_ok in Hok; cbn [fs_var fs_params] in Hok. apply args0 in Hok. subst ts.
     inversion HF; subst. exact I.
+  - (* hsl: any number of num arguments *)
+    unfold sig_args_ok in Hok; cbn [fs_var fs_params] in Hok.
+    assert (Hn : Forall (fun l => sfind S l = Some TNum) vals).
+    { clear -Hok HF. revert Hok. induction HF as [|l t vals ts Hl HF IH]; intros Hok; constructor.
+      - cbn [forallb] in Hok. apply andb_true_iff in Hok as [H1 _].
+        apply arg_ok_basic in H1; [congruence|discriminate|discriminate].
+      - apply IH. cbn [forallb] in Hok. apply andb_true_iff in Hok as [_ H2]. exact H2. }
+    wbind ltac:(apply mapM_pure; intros a Ha; eapply load_num_wp; eauto;
+                rewrite Forall_forall in Hn; auto). intros nums s1 ->.
+    destruct (hsl_model_shape ascii_oracles nums) as [[k ->] | [t ->]]; [exact I|].
+    destruct (forallb small_int nums); [apply bpost_of_alloc_str; auto | exact I].
 Qed.
 
 Lemma builtin_sound P S G e s name vals m sg ts :
